@@ -401,9 +401,18 @@ impl<'tcx> Cx<'tcx> {
                 let sc = val.try_to_scalar()?;
                 if let rustc_middle::mir::interpret::Scalar::Ptr(ptr, _) = sc {
                     let (prov, offset) = ptr.prov_and_relative_offset();
-                    let alloc_id = prov.alloc_id();
-                    if !matches!(tcx.try_get_global_alloc(alloc_id), Some(rustc_middle::mir::interpret::GlobalAlloc::Memory(_))) {
-                        return None;
+                    let mut alloc_id = prov.alloc_id();
+                    match tcx.try_get_global_alloc(alloc_id) {
+                        Some(rustc_middle::mir::interpret::GlobalAlloc::Memory(_)) => {}
+                        Some(rustc_middle::mir::interpret::GlobalAlloc::Static(sdid)) => {
+                            // an immutable `static` table: read its initializer
+                            if tcx.is_foreign_item(sdid) || tcx.is_mutable_static(sdid) {
+                                return None;
+                            }
+                            let init = std::panic::catch_unwind(std::panic::AssertUnwindSafe(|| tcx.eval_static_initializer(sdid))).ok()?.ok()?;
+                            alloc_id = tcx.reserve_and_set_memory_alloc(init);
+                        }
+                        _ => return None,
                     }
                     let inner_val = ConstValue::Indirect { alloc_id, offset };
                     let ij = self.const_struct(inner_val, *inner, depth + 1)?;
